@@ -716,6 +716,79 @@ pub fn overlap_frames() -> ListFamily {
     ListFamily { name: "overlap frames/u0 (word + Sigma* block Sigma* block Sigma*, blocks of 1-2 ranges, words of 1-3 letters)".into(), u, items, shallow: 0 }
 }
 
+/// different spellings of one literal (character list, two halves, runs as powers, a repeated block as a power) in
+/// intersections, differences and unions: a shortcut that treats syntactically different constant strings as different
+/// strings, or that spells a constant wrongly, shows as a wrong language
+pub fn spellings() -> ListFamily {
+    let u = Universe::new(0);
+    let ch = |i: usize| Rc::new(P::Rng(1 + i as u8, 1 + i as u8)); // letters a, b
+    let mut words: Vec<Vec<usize>> = vec![];
+    for len in 2..=4usize {
+        for code in 0..(1usize << len) {
+            words.push((0..len).map(|i| (code >> i) & 1).collect());
+        }
+    }
+    let spell = |w: &Vec<usize>| -> Vec<Rc<P>> {
+        let mut out: Vec<Rc<P>> = vec![Rc::new(P::ConcatL(w.iter().map(|&x| ch(x)).collect()))];
+        // left- and right-nested binary concatenations
+        let mut l = ch(w[0]);
+        for &x in &w[1..] {
+            l = Rc::new(P::Concat(l, ch(x)));
+        }
+        out.push(l);
+        let mut r = ch(w[w.len() - 1]);
+        for &x in w[..w.len() - 1].iter().rev() {
+            r = Rc::new(P::Concat(ch(x), r));
+        }
+        out.push(r);
+        // runs as powers
+        let mut runs: Vec<(usize, u32)> = vec![];
+        for &x in w {
+            match runs.last_mut() {
+                Some(q) if q.0 == x => q.1 += 1,
+                _ => runs.push((x, 1)),
+            }
+        }
+        if runs.iter().any(|q| q.1 > 1) {
+            out.push(Rc::new(P::ConcatL(runs.iter().map(|&(x, k)| if k == 1 { ch(x) } else { Rc::new(P::Pow(ch(x), k)) }).collect())));
+        }
+        // a repeated block as a power: w = v v
+        if w.len() % 2 == 0 && w[..w.len() / 2] == w[w.len() / 2..] {
+            let v: Vec<Rc<P>> = w[..w.len() / 2].iter().map(|&x| ch(x)).collect();
+            let block = if v.len() == 1 { v[0].clone() } else { Rc::new(P::ConcatL(v)) };
+            out.push(Rc::new(P::Pow(block.clone(), 2)));
+            out.push(Rc::new(P::Loop(block.clone(), 2, 2)));
+            out.push(Rc::new(P::Concat(block.clone(), block)));
+        }
+        out
+    };
+    let mut items = vec![];
+    for (wi, w) in words.iter().enumerate() {
+        let sp = spell(w);
+        for i in 0..sp.len() {
+            for j in 0..sp.len() {
+                if i != j {
+                    items.push(P::Inter(sp[i].clone(), sp[j].clone()));
+                    items.push(P::Diff(sp[i].clone(), sp[j].clone()));
+                }
+            }
+            items.push(P::Concat(sp[i].clone(), ch(1)));
+            items.push(P::Concat(ch(0), sp[i].clone()));
+            items.push(P::Inter(sp[i].clone(), Rc::new(P::Concat(Rc::new(P::All), ch(w[w.len() - 1])))));
+            // against a spelling of another word of the same length
+            let w2 = &words[(wi + 1) % words.len()];
+            if w2.len() == w.len() {
+                let sp2 = spell(w2);
+                let o = sp2[(i + 1) % sp2.len()].clone();
+                items.push(P::Inter(sp[i].clone(), o.clone()));
+                items.push(P::Union(sp[i].clone(), o.clone()));
+                items.push(P::Diff(sp[i].clone(), o));
+            }
+        }
+    }
+    ListFamily { name: "spellings/u0 (every word of 2-4 letters over {a,b} spelled in several ways: intersections, differences, unions, prefixes)".into(), u, items, shallow: 0 }
+}
+
 pub fn many_ranges() -> ListFamily {
     let u = Universe::new(3);
     let ch = |i: u8| Rc::new(P::Rng(i, i)); // regions 1..=12 are the letters
